@@ -91,6 +91,9 @@ func nextVar(name string) *big.Int {
 
 // Int returns an arbitrary integer in [lo, hi].
 func Int(name string, lo, hi int64) int64 {
+	if lo == hi {
+		return lo // the executor creates no variable for a one-point range
+	}
 	v := nextVar(name)
 	if v == nil {
 		return lo
